@@ -110,7 +110,7 @@ pub fn replay(c: &Value) -> Option<(String, String)> {
 pub fn configs(tier: Tier) -> Vec<Config> {
     let mut out = vec![];
     let sizes: Vec<u8> = tier.pick(vec![0, 1, 2, 3], vec![0, 1, 2, 3, 4]);
-    let dicts: Vec<(Vec<String>, Vec<u8>)> = vec![(vec![], vec![1]), (vec!["ab".into()], vec![1, 2, 4]), (vec!["a".into(), "ab".into(), "abc".into(), "あ".into()], vec![1, 2, 4])];
+    let dicts: Vec<(Vec<String>, Vec<u8>)> = vec![(vec![], vec![1]), (vec!["ab".into()], vec![1, 2, 4]), (vec!["a".into(), "ab".into(), "abc".into(), "あ".into()], vec![1, 2, 4]), (vec!["b".into(), "ab".into(), "aab".into(), "あb".into()], vec![1, 2]), (vec!["あ".into(), "ああ".into()], vec![1])];
     let solvers: Vec<u8> = tier.pick(vec![1, 5], vec![0, 1, 2, 3, 4, 5, 6, 7]);
     for &cw in &sizes {
         for &cn in &sizes {
